@@ -26,7 +26,7 @@ PLAN = {
     "C11": {"quick": 16000, "thorough": 600000},
     "C12": {"quick": 24000, "thorough": 4000000},
     "C13": {"quick": 11694, "thorough": 35082},  # lane L: the whole catalogue once / three times (other schedulers)
-    "C14": {"quick": 15690, "thorough": 103902},  # 2x / 6x the enumerated grid (7845 / 17317 cells)
+    "C14": {"quick": 16008, "thorough": 104856},  # 2x / 6x the enumerated grid (8004 / 17476 cells)
     "C15": {"quick": 16000, "thorough": 300000},
     "C17": {"quick": 40000, "thorough": 200000},
     "C20": {"quick": 60000, "thorough": 3000000},
@@ -378,8 +378,10 @@ RULES = {
            "non-trivial = D has >= 2 vertices, or a threaded execution with >= 2 workers and more rows than workers; "
            "distinct = distinct digests",
     "C14": "the (generator, parameter) grid is enumerated completely (orders 0..=70 quick / 0..=136 thorough, biclique "
-           "(m,n) with m+n <= 100 quick / 160 thorough, trivial/claw/utility, inadmissible parameters must panic) in all four "
-           "representations; AdjacencyList::complete additionally under sampled (CPU count, scheduler) configurations; "
+           "(m,n) with m+n <= 100 quick / 160 thorough plus 159 splits of 17 totals in 177..=513, linear generators at 19 orders "
+           "in 191..=1025, trivial/claw/utility, inadmissible parameters must panic) in all four "
+           "representations, every sequential generator at 4 simulated CPU counts (1, 16, two drawn) inside the ambient "
+           "execution; AdjacencyList::complete additionally under sampled (CPU count, scheduler) configurations; "
            "non-trivial = grid cell with a non-empty arc set, or threaded execution with >= 2 workers and more rows than "
            "workers; distinct = distinct digests of the cell resp. (cell, configuration)",
     "C15": "a case is (generator, order, seed, p) checked for validity and repeatability in all four representations, the "
